@@ -45,6 +45,16 @@ def run (max : Nat) (args : List String) : String :=
       match writeMsg ⟨h, pl⟩ with
       | .error _ => "err"
       | .ok ws => "ok " ++ " ".intercalate (ws.map toHex)
+  | ["msg.limit", sz] =>
+    -- a valid header announcing `sz` bytes, five bytes behind it: is the header refused (28 bytes
+    -- consumed, nothing of what follows) or does the reader go on for the payload?  A message with a
+    -- payload of that size round-trips exactly when its header is accepted.
+    let h : Header := ⟨1121889602, 7, sz.toNat!, 0, 1, 0, 1, 1, 100⟩
+    match readMsg max [.data (encodeHeader h ++ [1, 2, 3, 4, 5]) true] with
+    | (.ok _, _) => "accepted roundtrip=ok"
+    | (.error _, s') =>
+      let c := 33 - avail s'
+      if c == 28 then "refused roundtrip=refused" else "accepted roundtrip=ok"
   | _ => "bad-op"
 
 end QiVerif.Driver.C01
